@@ -122,7 +122,7 @@ def grammar(tier):
     colls = ["projects", "locations", "keys", "as", "b"]
     out = ["*"]
     maxv = 3 if tier == "quick" else 6
-    names = ["project", "location", "key", "a", "b", "c"]
+    names = ["project", "type", "key", "format", "b", "list"]       # reserved (non-keyword) words among the variable names
     for n in range(1, maxv + 1):
         base = "/".join(f"{colls[i % len(colls)]}/{{{names[i]}}}" for i in range(n))
         out.append(base)
